@@ -12,6 +12,7 @@ import Pastel.Lemmas.Clamp
 import Pastel.Order
 import Pastel.FloatFns
 import Pastel.Lemmas.Quantize
+import Pastel.Lemmas.HslMix
 
 namespace Pastel.C07
 open Pastel Sc ScOrd
@@ -264,5 +265,71 @@ theorem mix_rgb_self (r g b : UInt8) (a1 a2 f : ℝ) :
   obtain ⟨er, eg, eb⟩ := mix_rgb_bytes r g b r g b a1 a2 f
   show (_, _, _) = _
   rw [er, eg, eb, interpolate_self, interpolate_self, interpolate_self, quantize_chan, quantize_chan, quantize_chan]
+
+/-! ### HSL mixing of 8-bit colours, as bytes -/
+
+/-- **HSL mixing returns the operands' bytes at the end points** (exact arithmetic, every pair of
+8-bit colours, every alpha): fraction 0 gives the first colour, fraction 1 the second — through the
+shorter-arc rule (the angle returns to the operand's hue up to whole turns) and through the
+gray-hue rule (an operand whose saturation is below the threshold has chroma below 10⁻⁴, so the
+adopted hue cannot move a channel by half a level). -/
+theorem mix_hsl_endpoints (r1 g1 b1 r2 g2 b2 : UInt8) (a1 a2 : ℝ) :
+    bytes (mix .hsl (fromRgba8 r1 g1 b1 a1 : Color ℝ) (fromRgba8 r2 g2 b2 a2) 0) = (r1, g1, b1) ∧
+    bytes (mix .hsl (fromRgba8 r1 g1 b1 a1 : Color ℝ) (fromRgba8 r2 g2 b2 a2) 1) = (r2, g2, b2) := by
+  set c1 : Color ℝ := fromRgba8 r1 g1 b1 a1 with hc1
+  set c2 : Color ℝ := fromRgba8 r2 g2 b2 a2 with hc2
+  obtain ⟨s10, s11, l10, l11⟩ := real_valid_ranges c1 (C05.fromRgba8_valid _ _ _ _)
+  obtain ⟨s20, s21, l20, l21⟩ := real_valid_ranges c2 (C05.fromRgba8_valid _ _ _ _)
+  have f1 := fromRgba8_toRgbaFloat r1 g1 b1 a1
+  have f2 := fromRgba8_toRgbaFloat r2 g2 b2 a2
+  obtain ⟨j1, hj1⟩ := real_hueValue_turns c1.hue
+  obtain ⟨j2, hj2⟩ := real_hueValue_turns c2.hue
+  constructor
+  · obtain ⟨thr, hthr, mhue, msat, mlight⟩ := mix_hsl_fields c1 c2 0
+    rw [interpolate_zero, min_eq_right s11, max_eq_left s10] at msat
+    rw [interpolate_zero, min_eq_right l11, max_eq_left l10] at mlight
+    have hcase : (∃ k : ℤ, (mix .hsl c1 c2 0).hue = c1.hue + 360 * k) ∨ c1.sat < 1 / 1000 := by
+      rcases mixHue_zero_turns thr c1.sat (hueValue c1.hue) c2.sat (hueValue c2.hue) with hs | ⟨k, hk⟩
+      · right; rw [hthr] at hs; linarith
+      · left; exact ⟨j1 + k, by rw [mhue, hk, hj1]; push_cast; ring⟩
+    obtain ⟨hx, hy, hz⟩ := channels_close c1 _ msat mlight s10 l10 l11 hcase
+    rw [f1] at hx hy hz
+    exact bytes_near _ r1 g1 b1 hx hy hz
+  · obtain ⟨thr, hthr, mhue, msat, mlight⟩ := mix_hsl_fields c1 c2 1
+    rw [interpolate_one, min_eq_right s21, max_eq_left s20] at msat
+    rw [interpolate_one, min_eq_right l21, max_eq_left l20] at mlight
+    have hcase : (∃ k : ℤ, (mix .hsl c1 c2 1).hue = c2.hue + 360 * k) ∨ c2.sat < 1 / 1000 := by
+      rcases mixHue_one_turns thr c1.sat (hueValue c1.hue) c2.sat (hueValue c2.hue) with hs | ⟨k, hk⟩
+      · right; rw [hthr] at hs; linarith
+      · left; exact ⟨j2 + k, by rw [mhue, hk, hj2]; push_cast; ring⟩
+    obtain ⟨hx, hy, hz⟩ := channels_close c2 _ msat mlight s20 l20 l21 hcase
+    rw [f2] at hx hy hz
+    exact bytes_near _ r2 g2 b2 hx hy hz
+
+
+/-- **A colour mixed with itself in HSL keeps its bytes**, for every fraction. -/
+theorem mix_hsl_self (r g b : UInt8) (a1 a2 f : ℝ) :
+    bytes (mix .hsl (fromRgba8 r g b a1 : Color ℝ) (fromRgba8 r g b a2) f) = (r, g, b) := by
+  set c1 : Color ℝ := fromRgba8 r g b a1 with hc1
+  set c2 : Color ℝ := fromRgba8 r g b a2 with hc2
+  obtain ⟨s10, s11, l10, l11⟩ := real_valid_ranges c1 (C05.fromRgba8_valid _ _ _ _)
+  have f1 := fromRgba8_toRgbaFloat r g b a1
+  have hh : c2.hue = c1.hue := rfl
+  have hs : c2.sat = c1.sat := rfl
+  have hl : c2.light = c1.light := rfl
+  obtain ⟨j1, hj1⟩ := real_hueValue_turns c1.hue
+  obtain ⟨thr, hthr, mhue, msat, mlight⟩ := mix_hsl_fields c1 c2 f
+  rw [hs, interpolate_self, min_eq_right s11, max_eq_left s10] at msat
+  rw [hl, interpolate_self, min_eq_right l11, max_eq_left l10] at mlight
+  have hcase : (∃ k : ℤ, (mix .hsl c1 c2 f).hue = c1.hue + 360 * k) ∨ c1.sat < 1 / 1000 := by
+    left
+    rw [mhue, hh, hs]
+    unfold mixHue
+    simp only [ite_self]
+    obtain ⟨k, hk⟩ := interpolateAngle_self (hueValue c1.hue) f
+    exact ⟨j1 + k, by rw [hk, hj1]; push_cast; ring⟩
+  obtain ⟨hx, hy, hz⟩ := channels_close c1 _ msat mlight s10 l10 l11 hcase
+  rw [f1] at hx hy hz
+  exact bytes_near _ r g b hx hy hz
 
 end Pastel.C07
